@@ -1195,3 +1195,21 @@ Lemma rebuild_every_cut_safe_proved : forall n,
 Proof.
   intros n. do 6 (destruct n as [|n]; [vm_compute; reflexivity|]). vm_compute. reflexivity.
 Qed.
+
+(* ------------------------------------------------------------------ *)
+(* restart through replayLog keeps the durable term, vote, commit, entries and snapshot *)
+Lemma restart_keeps_durable_state_proved : forall img,
+  same_claims (restart_image img) img /\ i_commit (restart_image img) = i_commit img.
+Proof.
+  intros img. unfold restart_image, replay_log_guards. cbn [existsb guard_fires orb].
+  rewrite orb_false_r.
+  destruct (store_empty img) eqn:E; [|split; [apply same_claims_refl|reflexivity]].
+  unfold store_empty in E.
+  repeat (apply andb_true_iff in E; destruct E as [E ?]).
+  destruct (i_log img) eqn:L; [|discriminate].
+  repeat match goal with H : (_ =? _) = true |- _ => apply N.eqb_eq in H end.
+  unfold same_claims, image0. cbn. repeat split; congruence.
+Qed.
+
+Lemma restart_covers_proved : forall img m, covers (restart_image img) m = covers img m.
+Proof. intros. apply covers_same_claims. apply restart_keeps_durable_state_proved. Qed.
